@@ -57,6 +57,7 @@ def Skeleton.pinned : Skeleton where
   stubOneOutDecodesValueOnlyIfNotError := true
   respPublishAsync := true
   respPublishFireAndForget := true
+  respEveryReturnReports := true
   respPublishKeyIsResCall := true
   respPublishValueIsResValue := true
   respErrIffTrimNonEmpty := true
